@@ -22,7 +22,7 @@ TWO_PI = 2 * np.arctan2(LD(0), LD(-1))
 
 GETS = [1, 2, 3, 5]
 SET_T = [0.25, 7.0, 1.0 / 3.0]          # 1/3 s is off every sample grid used here
-ADD_T = [0.0, 0.5]
+ADD_T = [0.0, 0.0107421875]      # 11/1024 s: exact in single and double precision, not a whole number of samples at any rate used here
 UPD = [4]
 
 SOURCES = {
@@ -306,7 +306,7 @@ def apply_op(s, m, op, cfg, twin, V, site):
         m.c = F(op[1]); m.start = True; m.ops = 0; m.exact_next = True; m.set_float = float(op[1])
     elif kind == 'add':
         before = s.t_start
-        s.add_time(np.float32(op[1]) if cfg.get('nform') == 'f32add' else op[1])      # (0.0 and 0.5 are exact in single precision)
+        s.add_time(np.float32(op[1]) if cfg.get('nform') == 'f32add' else op[1])      # (0.0 and 11/1024 are exact in single precision)
         m.c = m.c + F(op[1]); m.start = True; m.ops += 1
         m.exact_next = True
         m.set_float = float(s.t_start)
